@@ -91,6 +91,7 @@ def run(ctx, rep):
     folder_arithmetic_cannot_panic(F, rep)
     generator_errors_are_propagated(F, rep)
     path_parts_exist(F, rep)
+    compound_targets_have_code(ctx.facts("default", ["bytecode", "compiler"]), rep)
     from props import _keywords
     rep.floor("C16.backtracking pairs of alternatives judged", _keywords.backtracking(F, rep, "C16.backtracking"), 100)
     # an index into a map that is compiled on the list path converts its constant key to a position during code generation (an Err there, and what it
@@ -107,6 +108,87 @@ def run(ctx, rep):
             if re.search(r"::(unwrap|expect)$", nm) or "core::panicking::" in nm:
                 n4 += 1
     rep.extra["panic_sites_in_crate_compiler_total"] = n4
+
+
+def compound_targets_have_code(F, rep, rule="C16.opassign-target"):
+    """`x op= v` is accepted by Expr::for_type for some shapes of x and compiled by compile_depth for some shapes of x; the second list ends in
+    `unimplemented!`.  Every shape the first accepts must have code in the second, or an accepted program (`(get c) += 1`) kills the compiler.
+    Accepted: per switch on the left operand in the compound-assignment region of for_type, the variants whose arm can reach the call of
+    get_output_type (a fall-through arm that goes on only behind Expr::root_ident is narrowed to the variants root_ident knows).  Compiled: the
+    generator is evaluated once per left-operand shape; a shape all of whose paths end in a panic has no code."""
+    import seqgen
+    from absint import Variant, Opaque
+    from props import C05 as _c05
+    EXPR = "compiler::ast::math_expr::Expr"
+    OP = "compiler::ast::math_expr::Op"
+    VAL = "compiler::ast::value::Value"
+    ea, oa, va = F.adt(EXPR), F.adt(OP), F.adt(VAL)
+    ft = F.fn("compiler::ast::math_expr::Expr::for_type")
+    cd = F.fn("compiler::ast::math_expr::compile_depth")
+    if ea is None or oa is None or va is None or ft is None or cd is None:
+        raise AnchorMissing("Expr / Op / Value / for_type / compile_depth")
+    en = [v["name"] for v in ea["variants"]]
+    on = [v["name"] for v in oa["variants"]]
+    vn = [v["name"] for v in va["variants"]]
+    gots = {c.bb for c in ft.calls_to("compiler::ast::r#type::TypeLayout::get_output_type")}
+    conds, der = rules.storing_operator_conditions(F, ft)
+    if not gots or not conds:
+        raise AnchorMissing("get_output_type / the compound-assignment condition in Expr::for_type")
+    region = set()
+    for bb, t_t, f_t, pol in rules.bool_switches(ft, der):
+        if pol is not None:
+            region |= ft.reachable(t_t if pol else f_t)
+    rt = F.fn("compiler::ast::math_expr::Expr::root_ident")
+    rooted = set()
+    if rt is not None:
+        for blk in rt.blocks:
+            t = blk["t"]
+            if t["k"] == "switch" and len(t["targets"]) >= 2:
+                rooted |= {en[int(v)] for v, _ in t["targets"] if int(v) < len(en)}
+    ri = {c.bb for c in ft.calls_to("compiler::ast::math_expr::Expr::root_ident")}
+    accepted = set(en)
+    n_sw = 0
+    for bi, blk in enumerate(ft.blocks):
+        t = blk["t"]
+        if t["k"] != "switch" or bi not in region:
+            continue
+        dl = op_local(t["discr"])
+        src = [rv for b2, s2, dst, rv, s_ in ft.assigns() if dst["l"] == dl and "discr" in rv] if dl is not None else []
+        if not src:
+            continue
+        pl = src[0]["discr"]
+        if not (isinstance(pl, dict) and pl.get("p") == [["deref"]] and "math_expr::Expr" in ft.locals[pl["l"]]) or pl["l"] == 1:
+            continue
+        n_sw += 1
+        named = {en[int(v)]: tg for v, tg in t["targets"] if int(v) < len(en)}
+        for v in en:
+            tg = named.get(v, t["otherwise"])
+            reach = ft.reachable(tg)
+            if not (reach & gots):
+                accepted.discard(v)
+            elif v not in named and rooted and not (ft.reachable(tg, removed_blocks=ri) & gots) and v not in rooted:
+                accepted.discard(v)          # goes on only behind root_ident, which knows nothing of this shape
+    rep.floor(rule + " tests of the left operand's shape in the compound-assignment part of for_type", n_sw, 1)
+    n = 0
+    for v in sorted(accepted):
+        fields = [Opaque("l.%s" % f["name"]) for f in ea["variants"][en.index(v)]["fields"]]
+        if v == "Value":
+            fields = [Variant(VAL, vn.index("Ident"), "Ident", [Opaque("l.ident")])]
+        lhs = Variant(EXPR, en.index(v), v, fields)
+        node = Variant(EXPR, en.index("BinOp"), "BinOp", [lhs, Variant(OP, on.index("AddAssign"), "AddAssign", []), Opaque("rhs")])
+        rows, ex = seqgen.sequences(F, cd, [node, Opaque("state"), Opaque("depth")], extra_models=_c05.OPAQUE_TYPING)
+        kinds = {r["kind"] for r in rows}
+        key = "%s|%s" % (rule, v)
+        label = "`<%s> += v` is accepted by the type checker: the generator has code for that shape of target" % v
+        if ex or not rows or (kinds - {"return", "panic"}):
+            rep.ob(rule, label, "undecided", "generator paths %s (exhausted=%s)" % (sorted(kinds), ex), cd.span, fn=cd.path, key=key)
+            continue
+        n += 1
+        has_code = any(r["kind"] == "return" and r["seq"] is not None for r in rows)
+        rep.ob(rule, label, "ok" if has_code else "violated",
+               "" if has_code else "every path of compile_depth for this target ends in a panic (unimplemented!): the program type-checks and `mscript compile` dies with "
+               "exit 101 instead of a diagnostic", cd.span, fn=cd.path, key=key)
+    rep.floor(rule + " accepted target shapes judged", n, 3)
 
 
 def loop_boundary(F, rep):
